@@ -2085,6 +2085,18 @@ def c12_execs(r, quick):
     return execs
 
 
+def _strip_templates(t):
+    out, depth = [], 0
+    for ch in t:
+        if ch == "<":
+            depth += 1
+        elif ch == ">":
+            depth = max(0, depth - 1)
+        elif depth == 0:
+            out.append(ch)
+    return "".join(out)
+
+
 def run_tsan(ctx, exe, batches, jobs=8):
     """replay the scripts on the ThreadSanitizer build; every distinct data-race report becomes a deviation"""
     import re as _re
@@ -2111,14 +2123,25 @@ def run_tsan(ctx, exe, batches, jobs=8):
         reports = err.split("WARNING: ThreadSanitizer: data race")[1:]
         seen = set()
         for rep in reports:
-            locs = _re.findall(r"#\d+ (\S+) ([^ ]+\.hpp:\d+)", rep)
-            lib = [(f, l) for (f, l) in locs if "SplineOptimizer.hpp" in l or "SplineTrajectory.hpp" in l]
-            key = tuple(sorted(set(l for _, l in lib)))[:4]
+            # a report concerns the library if a frame of one of its stacks is a function of namespace SplineTrajectory (judged on the
+            # function name with template arguments stripped: file and line are often unavailable for inlined code)
+            lib, where = [], []
+            for ln in rep.split("\n"):
+                m = _re.match(r"\s+#\d+ (.*) (<null>|\S+?:\d+(?::\d+)?) \(", ln)
+                if not m:
+                    continue
+                fn = _strip_templates(m.group(1)).split("(")[0]
+                if "SplineTrajectory::" in fn:
+                    lib.append(fn.split("SplineTrajectory::", 1)[1])
+                    if ".hpp:" in m.group(2):
+                        where.append(os.path.basename(m.group(2)))
+            key = tuple(sorted(set(lib)))[:4]
             if not key or key in seen:
                 continue
             seen.add(key)
             nrep += 1
-            funcs = sorted(set(f for f, _ in lib))[:6]
+            funcs = list(key)
+            key = tuple(sorted(set(where)))[:4]
             ctx.devs.append({"prop": "C12", "code": "tsan.race", "info": {"where": [os.path.basename(x) for x in key], "functions": funcs},
                              "line": 1, "exec": 1, "batch": i, "script": os.path.join(ctx.work, "t%03d.script.ndjson" % i)})
     ctx.stats["tsan_replays"] = len(batches)
